@@ -724,6 +724,26 @@ def r02_13(ctx):
     ctx.floor("R02.13", "whitespace-predicates", n, 2)
 
 
+def foreign_end_tag_stops_at_html(ctx, rule):
+    """foreign content, any other end tag: walking down the stack, the name comparison that pops applies to the first node and then
+    only to nodes that are NOT in the HTML namespace - on reaching an HTML element the token is handed to the current insertion
+    mode instead (the HTML-namespace test comes before the name test)"""
+    key, pcs = nfq.cells(ctx, TB, "::step_foreign")
+    k = 0
+    bad = None
+    for pc in nfq.feasible(pcs):
+        if not any(a == "self.open_elems.truncate" for a, _ in pc["actions"]):
+            continue
+        k += 1
+        g = pc["guards"]
+        first = any(v and re.fullmatch(r"φ\(true\)(#\d+)?", x) for x, v in g.items())
+        not_html = any((not v) and re.search(r"\.ns\(\) matches atom:http://www\.w3\.org/1999/xhtml(#\d+)?$", x) for x, v in g.items()) or \
+            any((not v) and "matches ExpandedName{ns:atom:http://www.w3.org/1999/xhtml" in x for x, v in g.items())
+        if not (first or not_html):
+            bad = "an element further down the stack is popped by the foreign end-tag rule without having been tested not to be an HTML element: </body> inside <svg> pops body while the mode stays 'in body'"
+    ctx.ob(rule, "foreign-end-tag-stops-at-html-elements", bad is None and k >= 2, bad or "%d popping paths: the first node, or a node tested to be outside the HTML namespace" % k, "html5ever tree_builder step_foreign")
+
+
 def r02_14(ctx):
     """'the tokenizer state for a fragment's context element': RCDATA / RAWTEXT / script data / PLAINTEXT only for HTML-namespace
     elements of those names - an SVG <title> or a MathML <textarea> context leaves the tokenizer in the data state"""
@@ -741,6 +761,7 @@ def r02_14(ctx):
 
 
 def run(ctx):
+    ctx.guard("R02.12", "foreign-end-html", lambda: foreign_end_tag_stops_at_html(ctx, "R02.12"))
     ctx.rule("R02.14", "a fragment's context element switches the tokenizer out of the data state only if it is an HTML element")
     ctx.guard("R02.14", "context-state", lambda: r02_14(ctx))
     ctx.rule("R02.13", "the tree builder's whitespace predicates denote exactly ASCII whitespace (TAB, LF, FF, CR, SPACE)")
